@@ -126,9 +126,24 @@ TEXT['C18'] = dict(
          '8d7565c and the float step counter).',
     technique='bounded run-time checking of the real driver and I/O paths under simulated MPI')
 
+TEXT['C14'] = dict(
+    category='other',
+    text='Bounded stand-in: the real DiffEqSolver is compared with an independent dense Galerkin assembly (own Gauss-Legendre rule, '
+         'scipy B-splines, per-mode boundary unknown sets) and with manufactured polynomial solutions over degrees, cell counts, '
+         'coefficient functions, boundary mixes and process grids. No contract within reach expresses the weak form without '
+         'restating the sparse assembly (DESIGN C14); the index/frame clauses are planned.',
+    note=BOUNDED_NOTE + 'Found and fixed the missing right-hand-side factor of solveEquationForFunction.',
+    technique='bounded run-time checking against an independent dense Galerkin solve')
+TEXT['C15'] = dict(
+    category='other',
+    text='Bounded stand-in: the real quasi-neutrality pipeline through the distributed layout changes is compared with an explicit '
+         'DFT and a dense per-mode solve (m=0 convention for chi in {0,1}); realness, round trip, equilibrium fixed point.',
+    note=BOUNDED_NOTE + 'FFT round trip identity is the contract of scipy.fftpack (assumed in the deductive plan).',
+    technique='bounded run-time checking against an independent mode-by-mode oracle under simulated MPI')
+
 NOT_APPLICABLE = {
     'C19': 'compares compiled pyccel artefacts with their Python source: translation validation; no deductive verifier for the '
            'generated Fortran/C is installed (DESIGN.md, C19)',
 }
-for _p in ['C08', 'C09', 'C13', 'C14', 'C15']:
+for _p in ['C08', 'C09', 'C13']:
     NOT_APPLICABLE[_p] = 'check not built yet in this session (planned, see DESIGN.md); not claimed until its contracts discharge'
